@@ -58,7 +58,7 @@ class World:
 
 ACTIONS = [(k, f, p) for k in ('oracle', 'gradient', 'value') for f in ('f1', 'f2', 'F') for p in ('x0', 'x0_again', 'comb', 'zero_a', 'zero_b')] + \
           [('stationary', f, None) for f in ('f1', 'f2', 'F')] + [('prox', f, 'x0') for f in ('f2', 'F')] + \
-          [('fixed', f, None) for f in ('f1', 'F')] + [('prox0', f, p) for f in ('f1', 'f2', 'F') for p in ('x0', 'comb')]
+          [('at_stationary', f, None) for f in ('f1', 'f2', 'F')] + [('fixed', f, None) for f in ('f1', 'F')] + [('prox0', f, p) for f in ('f1', 'f2', 'F') for p in ('x0', 'comb')]
 
 
 def do(w, action):
@@ -67,6 +67,14 @@ def do(w, action):
     if kind == 'stationary':
         x = f.stationary_point()
         w.returns.append((action, x, None, None))
+        return
+    if kind == 'at_stationary':
+        # query the function again AT a declared stationary point (declared now if there is none yet)
+        if not f.list_of_stationary_points:
+            f.stationary_point()
+        xs = f.list_of_stationary_points[-1][0]
+        g, v = f.oracle(xs)
+        w.returns.append((('oracle', fname, None), xs, g, v))
         return
     if kind == 'fixed':
         x, gx, fx = f.fixed_point()
@@ -144,6 +152,8 @@ def check(w, fails, after):
             st = [t for t in f.list_of_points if t[0] is x]
             if not st or pruned(st[0][1].decomposition_dict) != {}:
                 fails.append(('R.stationary', 'a declared stationary point of %s has a non-zero total gradient' % fname))
+            elif fname == 'f2':
+                by[(fname, tuple(sorted((id(k), c) for k, c in pruned(x.decomposition_dict).items())))] = (st[0][1], st[0][2])     # the null gradient recorded there
             continue
         if kind in ('prox', 'prox0', 'fixed'):
             # the returned triple is a sample recorded on the function (the returned gradient / value ARE those of f at the returned point)
@@ -156,6 +166,9 @@ def check(w, fails, after):
         prev = by.get(key)
         if prev is not None:
             pg, pv = prev
+            if fname == 'f2' and g is not None and pg is not None and g is pg:
+                # a non-differentiable LEAF function gives a new subgradient at every query (also at a minimiser, where 0 is only ONE of its subgradients)
+                fails.append(('R.new_subgradient', 'non-differentiable %s queried twice at one point returns the same gradient object' % fname))
             if v is not None and pv is not None and not same_coeffs(v.decomposition_dict, pv.decomposition_dict):
                 fails.append(('R.same_value', '%s queried twice at one point returns two different values' % fname))
             if f.reuse_gradient and g is not None and pg is not None and not same_coeffs(g.decomposition_dict, pg.decomposition_dict):
